@@ -1,11 +1,13 @@
 #!/venv/bin/python
 """Robustness probe of the checks: analyse a behaviour-preserving rewrite of the WHOLE package in memory.
 
-  tools/alpha.py [mode] [C01 C02 ...]      mode: reformat | rename (default rename)
+  tools/alpha.py [mode] [C01 C02 ...]      mode: reformat | rename | respell | kwargs (default rename)
 
 reformat: every module is re-generated with ast.unparse (comments, layout, quote style, line numbers change).
 rename:   additionally every function-local variable that is not a parameter, not global/nonlocal and not used by a nested
           function gets the suffix `_v` (alpha-renaming); parameters keep their names (they are API).
+respell:  equivalent spellings (np.where(c)[0] -> np.flatnonzero(c), x * (-1) -> -x, "..%s.." % v -> f-string, dict() -> {}).
+kwargs:   positional arguments of calls to package functions (unique name, no *args) become keyword arguments.
 The rules must give the same verdict as on the unchanged tree: any failing obligation or analysis error printed here is a
 dependence of a rule on layout or on local names."""
 import ast
@@ -41,23 +43,14 @@ def run(args):
 def main():
     args = sys.argv[1:]
     mode = "rename"
-    if args and args[0] in ("reformat", "rename"):
+    if args and args[0] in ("reformat", "rename", "respell", "kwargs"):
         mode = args.pop(0)
     import json
     verif = os.path.dirname(os.path.dirname(os.path.abspath(__file__)))
     props = args or [c["property_id"] for c in json.load(open(os.path.join(verif, "MANIFEST.json")))["checks"]]
     sp = SourceProvider()
-    overrides = {}
-    for m in sp.modules():
-        if m.startswith("ppsa_spec"):
-            continue
-        try:
-            t = sp.text(m)
-            new = rewrite(t, mode)
-            compile(new, m, "exec")
-            overrides[m] = new
-        except Exception as e:  # noqa
-            print("cannot rewrite", m, e)
+    from ppsa.rewrite import package_overrides
+    overrides = package_overrides(sp, mode)
     print("mode %s: %d modules rewritten" % (mode, len(overrides)))
     with ProcessPoolExecutor(max_workers=16) as ex:
         for prop, status, bad in ex.map(run, [(p, overrides) for p in props]):
